@@ -2,7 +2,7 @@
    the result is the real truncated / a nearest integer in the documented direction, unless an adjacent
    integer is tolerantly equal to the argument (C17_trunc_round). *)
 From Coq Require Import ZArith Reals List Bool Lia Lra.
-From Flocq Require Import Core BinarySingleNaN.
+From Flocq Require Import Core Plus_error BinarySingleNaN.
 From DuneV Require Import C17_Model C17_Spec C17_Spec_Round C17_Proofs_Cmp C17_Proofs_Int.
 
 Section Round.
@@ -467,6 +467,103 @@ Proof.
       - destruct (c17_floor_nonint_cases x NI) as [(_ & -> & _)|(_ & -> & _)]; auto.
       - destruct up; destruct D as [(-> & _)|(-> & _)]; auto. }
     destruct Z2 as [-> | ->]; auto.
+Qed.
+
+(* ---------------------------------------------------------------- epsilon = 0: no tolerance, exact floor / ceiling *)
+Local Instance fexp_mono' : Monotone_exp fexp := fexp_monotone prec emax.
+
+(* with epsilon 0 (any style) the tolerant equality is the exact one *)
+Lemma c17_eq_eps0 (s : c17_cstyle) (eps x y : fl) :
+  is_finite eps = true -> B2R eps = 0%R -> is_finite x = true -> is_finite y = true ->
+  EQ s eps x y = true -> B2R x = B2R y.
+Proof.
+  intros Fe Ze Fx Fy.
+  assert (Key : forall rhs : fl, is_finite rhs = true -> B2R rhs = 0%R ->
+            Bleb (Babs (Bminus mode_NE x y)) rhs = true -> B2R x = B2R y).
+  { intros rhs Fr Zr H.
+    pose proof (Bminus_correct prec emax Hprec Hmax mode_NE x y Fx Fy) as M. simpl round_mode in M.
+    destruct (Rlt_bool (Rabs (rnd (B2R x - B2R y))) (bpow radix2 emax)).
+    - destruct M as (M1 & M2 & _).
+      rewrite Bleb_correct in H by (rewrite ?is_finite_Babs; auto).
+      rewrite B2R_Babs, M1, Zr in H.
+      destruct (Rle_bool_spec (Rabs (rnd (B2R x - B2R y))) 0) as [L|L]; try discriminate.
+      assert (Z0 : rnd (B2R x - B2R y) = 0%R).
+      { pose proof (Rabs_pos (rnd (B2R x - B2R y))). apply Rabs_eq_R0. lra. }
+      unfold Rminus in Z0.
+      apply (round_plus_eq_0 radix2 fexp ZnearestE) in Z0.
+      + lra.
+      + apply generic_format_B2R.
+      + apply generic_format_opp. apply generic_format_B2R.
+    - destruct M as (M1 & _). unfold binary_overflow in M1. simpl in M1.
+      destruct (Bminus mode_NE x y); try discriminate M1.
+      destruct rhs as [sr|sr| |sr mr er Hr]; try discriminate Fr; simpl in H; discriminate H. }
+  unfold c17_eq, c17_fle, c17_fabs, c17_fsub, c17_fmul.
+  assert (Mul : forall m : fl, is_finite m = true ->
+            is_finite (Bmult mode_NE eps m) = true /\ B2R (Bmult mode_NE eps m) = 0%R).
+  { intros m Fm. pose proof (Bmult_correct prec emax Hprec Hmax mode_NE eps m) as HM. simpl round_mode in HM.
+    rewrite Ze, Rmult_0_l, round_0, Rabs_R0 in HM by auto with typeclass_instances.
+    rewrite Rlt_bool_true in HM by apply bpow_gt_0. destruct HM as (M1 & M2 & _). rewrite Fe, Fm in M2. auto. }
+  destruct s.
+  - destruct (Mul (c17_fmax prec emax (Babs x) (Babs y))) as [F Z].
+    + unfold c17_fmax. destruct (c17_flt _ _ _ _); now rewrite is_finite_Babs.
+    + now apply Key.
+  - destruct (Mul (c17_fmin prec emax (Babs x) (Babs y))) as [F Z].
+    + unfold c17_fmin. destruct (c17_flt _ _ _ _); now rewrite is_finite_Babs.
+    + now apply Key.
+  - now apply Key.
+Qed.
+
+(* trunc with epsilon 0: exactly floor (downward direction) / ceiling (upward direction) of val, every style *)
+Lemma C17_trunc_eps0_lemma (r : c17_rstyle) (t : c17_ity) (s : c17_cstyle) (eps val : fl) :
+  is_finite eps = true -> B2R eps = 0%R -> is_finite val = true ->
+  let f := Zfloor (B2R val) in
+  c17_inrange t f = true -> (IZR f <> B2R val -> c17_inrange t (f + 1) = true) ->
+  c17_trunc_fix prec emax Hprec Hmax r t s eps val =
+    C17_Val (if c17_dir_down r val then Zfloor (B2R val) else Zceil (B2R val)).
+Proof.
+  intros Fe Ze F f Rf Rf1.
+  destruct (C17_trunc_fixed_lemma r t s eps val Fe ltac:(lra) F Rf Rf1) as (z & Hz & P).
+  rewrite Hz. f_equal.
+  unfold C17_Spec_Round.c17_trunc_post in P. fold f in P.
+  assert (Zero : forall i : Z, B2R (ofZ i) = IZR i -> is_finite (ofZ i) = true -> EQ s eps (ofZ i) val = true -> IZR i = B2R val).
+  { intros i Vi Fi Q. rewrite <- Vi. now apply (c17_eq_eps0 s eps (ofZ i) val). }
+  destruct P as [(Su & -> & Q)|[(E & ->)|(NI & Vf & Vf1 & H)]].
+  - (* unsigned, val tolerantly 0 with eps = 0: val = 0 *)
+    assert (B2R val = 0%R).
+    { symmetry. change 0%R with (B2R (c17_fzero prec emax)). symmetry. now apply (c17_eq_eps0 s eps val (c17_fzero prec emax)). }
+    rewrite H. change 0%R with (IZR 0). rewrite Zfloor_IZR, Zceil_IZR. now destruct (c17_dir_down r val).
+  - fold f. assert (Zceil (B2R val) = f) by (rewrite <- E; apply Zceil_IZR). rewrite H. now destruct (c17_dir_down r val).
+  - destruct (c17_nonint_neighbours val F NI) as [Nf Nf1]. fold f in Nf, Nf1.
+    destruct (c17_ofZ_small f Nf) as [_ Ff]. destruct (c17_ofZ_small (f + 1) Nf1) as [_ Ff1].
+    pose proof (Zceil_floor_neq (B2R val) NI) as C. fold f in C. rewrite C. fold f.
+    pose proof (Zfloor_ub (B2R val)) as U. fold f in U. pose proof (Zfloor_lb (B2R val)) as L. fold f in L.
+    assert (N1 : EQ s eps (ofZ (f + 1)) val = false).
+    { destruct (EQ s eps (ofZ (f + 1)) val) eqn:Q; auto. apply (Zero (f + 1)%Z Vf1 Ff1) in Q. rewrite plus_IZR in Q. lra. }
+    assert (N0 : EQ s eps (ofZ f) val = false).
+    { destruct (EQ s eps (ofZ f) val) eqn:Q; auto. apply (Zero f Vf Ff) in Q. contradiction. }
+    destruct (c17_dir_down r val).
+    + destruct H as [(_ & Q)|(-> & _)]; [congruence | reflexivity].
+    + destruct H as [(-> & _)|(_ & _ & Q)]; [reflexivity | congruence].
+Qed.
+
+(* round at an exact tie val = k + 1/2 (cast value not tolerantly equal, both neighbours representable):
+   downward direction -> k, upward direction -> k + 1 *)
+Lemma C17_round_exact_tie_lemma (up : bool) (t : c17_ity) (s : c17_cstyle) (eps val : fl) (z : Z) :
+  let x := B2R val in let f := Zfloor x in
+  c17_round_post up t s eps val z ->
+  (x - IZR f = 1 / 2)%R -> EQ s eps (ofZ (Ztrunc x)) val = false ->
+  c17_inrange t f = true -> c17_inrange t (f + 1) = true ->
+  z = if up then (f + 1)%Z else f.
+Proof.
+  intros x f P T Q Rf Rf1. unfold C17_Spec_Round.c17_round_post in P. fold x in P. fold f in P.
+  assert (I1 : IZR (f + 1) = (IZR f + 1)%R) by apply plus_IZR.
+  destruct P as [(E & _)|(NI & _ & _ & H)]; [lra|].
+  apply c17_inrange_iff in Rf. apply c17_inrange_iff in Rf1.
+  destruct H as [(_ & Q')|[(_ & M & _)|[(_ & M & _)|(_ & _ & D)]]]; try congruence; try lia.
+  unfold C17_Spec_Round.c17_decide_post in D. fold x in D. fold f in D.
+  destruct up.
+  - destruct D as [(_ & Lt & _)|(-> & _)]; [lra | reflexivity].
+  - destruct D as [(-> & _)|(_ & Lt & _)]; [reflexivity | lra].
 Qed.
 
 End Round.
